@@ -1,6 +1,7 @@
 package zv
 
 import (
+	"fmt"
 	"go/token"
 	"go/types"
 	"regexp"
@@ -646,45 +647,91 @@ func c6FrontEnds(c *Ctx, lv map[string]int64) {
 	nl := c.Func(gp, "NewLogger")
 	pr := c.Named(gp, "printer")
 	if c.Anchor("R6.2", "zapgrpc.NewLogger", nl != nil && pr != nil) {
-		// find the alloc stored into logger.fatal
-		var fatalAlloc, printAlloc ssa.Value
-		AllInstrs(nl, func(i ssa.Instruction) {
-			if st, ok := i.(*ssa.Store); ok {
-				fa, isFA := st.Addr.(*ssa.FieldAddr)
-				if !isFA || TypeName(deref(fa.X.Type())) != "zapgrpc.Logger" {
-					return
-				}
-				switch fieldName(fa.X.Type(), fa.Field) {
-				case "fatal":
-					fatalAlloc = st.Val
-				case "print":
-					printAlloc = st.Val
-				}
-			}
-		})
-		chk := func(alloc ssa.Value, which string, lvl int64, pm, pfm string) {
+		// by path exploration (helpers inline): what the printers stored into logger.print / logger.fatal hold at
+		// the moment they are installed
+		describe := func(st *ConcState, pv ssa.Value) map[string]string {
 			got := map[string]string{}
-			for _, st := range FieldStoresOf(nl, pr) {
-				if st.Addr.X == alloc {
-					got[st.Field] = Desc(st.Instr.Val)
+			resolve := func(v ssa.Value) ssa.Value {
+				for k := 0; k < 16 && v != nil; k++ {
+					switch x := v.(type) {
+					case *ssa.ChangeType:
+						v = x.X
+						continue
+					case *ssa.MakeInterface:
+						v = x.X
+						continue
+					}
+					nx := st.Step(v)
+					if nx == nil {
+						break
+					}
+					v = nx
+				}
+				return v
+			}
+			stt, _ := pr.Underlying().(*types.Struct)
+			for i := 0; stt != nil && i < stt.NumFields(); i++ {
+				f := stt.Field(i).Name()
+				k, isInt, val := st.FieldOf(pv, f)
+				switch {
+				case isInt:
+					got[f] = itoa(int(k))
+				case val != nil:
+					r := resolve(val)
+					if mk, ok := r.(*ssa.MakeClosure); ok && len(mk.Bindings) == 1 {
+						got[f] = "closure " + mk.Fn.Name() + " of " + st.Desc(mk.Bindings[0])
+					} else {
+						got[f] = st.Desc(val)
+					}
 				}
 			}
-			ok := got["level"] == itoa(int(lvl)) && got["print"] == "closure "+pm+"$bound" && got["printf"] == "closure "+pfm+"$bound" && strings.HasSuffix(got["enab"], "levelEnabler")
-			if !ok && got["level"] == itoa(int(lvl)) && len(got) == 2 {
+			return got
+		}
+		seen := map[string]map[string]string{}
+		seqs, trunc := ConcPaths(nl, ConcCfg{
+			Event: func(in ssa.Instruction, st *ConcState) string {
+				x, ok := in.(*ssa.Store)
+				if !ok {
+					return ""
+				}
+				fa, isFA := x.Addr.(*ssa.FieldAddr)
+				if !isFA || TypeName(deref(fa.X.Type())) != "zapgrpc.Logger" {
+					return ""
+				}
+				which := fieldName(fa.X.Type(), fa.Field)
+				if which != "fatal" && which != "print" {
+					return ""
+				}
+				got := describe(st, x.Val)
+				if old, dup := seen[which]; dup && fmt.Sprint(old) != fmt.Sprint(got) {
+					got["conflict"] = fmt.Sprint(old)
+				}
+				seen[which] = got
+				return which
+			},
+		})
+		chk := func(which string, lvl int64, pm, pfm string) {
+			got := seen[which]
+			bound := func(v, m string) bool {
+				return strings.HasPrefix(v, "closure "+m+"$bound of ") && (strings.HasSuffix(v, ".delegate") || strings.Contains(v, " of Sugar("))
+			}
+			live := strings.HasSuffix(got["enab"], "levelEnabler") || strings.HasPrefix(got["enab"], "Core(")
+			ok := got["conflict"] == "" && got["level"] == itoa(int(lvl)) && bound(got["print"], pm) && bound(got["printf"], pfm) && live
+			if !ok && got["conflict"] == "" && got["level"] == itoa(int(lvl)) && len(got) == 2 {
 				// {log: the delegate, level}: the level alone selects what the printer does
 				for f, v := range got {
-					if f != "level" && strings.HasSuffix(v, ".delegate") {
+					if f != "level" && (strings.HasSuffix(v, ".delegate") || strings.HasPrefix(v, "Sugar(")) {
 						ok = true
 					}
 				}
 			}
 			c.Check(ok, "R6.2", nl.String(), "printer/"+which, nl.Pos(), "the %s printer is {level:%d, print:delegate.%s, printf:delegate.%s, enab: the live enabler} (got %v)", which, lvl, pm, pfm, got)
 		}
-		if fatalAlloc == nil || printAlloc == nil {
+		if trunc || len(seqs) == 0 || seen["fatal"] == nil || seen["print"] == nil {
 			c.Bad("R6.2", nl.String(), "printers", nl.Pos(), "cannot find the printers stored into logger.fatal / logger.print")
 		} else {
-			chk(fatalAlloc, "fatal", lv["Fatal"], "Fatal", "Fatalf")
-			chk(printAlloc, "print", lv["Info"], "Info", "Infof")
+			chk("fatal", lv["Fatal"], "Fatal", "Fatalf")
+			chk("print", lv["Info"], "Info", "Infof")
 		}
 	}
 }
@@ -972,7 +1019,6 @@ func impliedByLevel(guard string, vars []string, L int64) bool {
 	}
 	return false
 }
-
 
 // dynFuncCall: the one call in fn that goes through a function VALUE held by the receiver (a func-typed field, or
 // the receiver itself when its type is a func type) - the bridged logger method of the std-log writer.
